@@ -202,16 +202,29 @@ class DenseOutput(object):
             self.__t_eval_arr_stale = False
         return self.__t_eval_arr
 
+    def __is_decreasing(self):
+        # interpolants of a backward integration are stored in increasing time: each covers the interval *after* its end time
+        if len(self.y_interpolants) == 0:
+            return False
+        interp = self.y_interpolants[0]
+        return hasattr(interp, "t0") and hasattr(interp, "t1") and bool(interp.t1 < interp.t0)
+
     def find_interval(self, t):
         if self.t_eval is None:
             raise ValueError("No interpolant has been added and time interval is not defined!")
-        return min(deutil.search_bisection(self.t_eval, t), len(self.y_interpolants) - 1)
+        idx = min(deutil.search_bisection(self.t_eval, t), len(self.y_interpolants) - 1)
+        if idx > 0 and self.__is_decreasing() and self.t_eval[idx] > t:
+            idx = idx - 1
+        return idx
 
     def find_interval_vec(self, t):
         if self.t_eval is None:
             raise ValueError("No interpolant has been added and time interval is not defined!")
         out = deutil.search_bisection_vec(self.t_eval_arr, t)
         out[out > len(self.y_interpolants) - 1] = len(self.y_interpolants) - 1
+        if self.__is_decreasing():
+            shift = (out > 0) & (D.ar_numpy.take(self.t_eval_arr, out, axis=0) > D.ar_numpy.asarray(t))
+            out[shift] = out[shift] - 1
         return out
 
     def __call__(self, t):
